@@ -833,8 +833,10 @@ static void run_curve(Out& out, const CurveDesc& d) {
 
 // ---------------------------------------------------------------- shapes
 // payload: <kind-specific numbers as hex doubles> ; the data part after '|' as for curves
+// devkey: finding key of a deviation above K tol (default "<kind>:deviation"; the fillets pass "fillet:sagitta" so that a
+// polyline of two or more vertices that strays is never attributed to the recorded one-point finding fillet:deviation)
 static void emit_arcloop(Out& out, const std::string& kind, const std::string& head, double tol, const ArcInfo& A,
-                         const std::vector<Vec2>& v, const std::string& fail_in, double K) {
+                         const std::vector<Vec2>& v, const std::string& fail_in, double K, const std::string& devkey = "") {
     std::string fail = fail_in;
     bool fin = true;
     for (auto& p : v) fin = fin && finite2(p);
@@ -845,13 +847,404 @@ static void emit_arcloop(Out& out, const std::string& kind, const std::string& h
         if (ratio > K * (1 + 1e-6)) {
             char b[160];
             snprintf(b, sizeof b, "%.3f tol with %llu chords", ratio, (unsigned long long)A.nseg);
-            fail = "FAIL " + kind + (A.rx != A.ry ? ":ellipse-span " : ":deviation ") + "deviates " + b;
+            fail = "FAIL " + (devkey.empty() ? kind + (A.rx != A.ry ? ":ellipse-span" : ":deviation") : devkey) + " deviates " + b;
         }
     }
     std::string id = out.add(kind, head + " | " + (fin ? arc_data(kind, tol, A, v, true) : std::string("skip nonfinite")));
     out.I(id, "arc " + std::to_string(v.size()));
     out.P(id, fail.empty() ? "ok" : fail);
     if (!fail.empty()) out.count("pfail:" + fail.substr(5, fail.find(' ', 5) - 5));
+}
+
+// ---------------------------------------------------------------- Polygon::fillet: oracle from the arguments alone
+// A fillet case is (vertices, radii cycled over the vertices like the library's argument, tolerance).  Rule derived from
+// src/polygon.cpp (Polygon::fillet) and checked against include/gdstk/polygon.hpp / the Python docstring:
+//   corner i with unit edge directions u0 (incoming, length l0), u1 (outgoing, length l1), turning angle theta in (0, pi):
+//     tangent length  L     = min(R_i tan(theta/2), (min(l0, l1) - tol) / 2)
+//     radius          r_eff = L / tan(theta/2)          (= R_i when nothing clamps; <= 0: the corner is kept)
+//     tangent points  T0 = P - L u0, T1 = P + L u1;  centre C = P + (r_eff / cos(theta/2)) * (u1 - u0)/|u1 - u0|
+//     the arc runs from T0 to T1 the short way (sweep theta, in the direction of the turn), n >= 2 uniformly spaced
+//     vertices, or the corner itself (n = 1) when arc_num_points rounds to one point.
+//   The documentation states the limit as "radius <= half the shortest adjacent edge"; the code limits the TANGENT LENGTH
+//   (which is what keeps neighbouring fillets apart) and additionally keeps a straight piece of at least tol on every edge:
+//   the two agree only at right angles (counted as fillet:doc-rule-differs in the stats, not a failure).
+// Checked on the implementation's result, one case "# corners" and one "# global" per polygon (keys of the P line):
+//   fillet:count          the vertices do not split into one run per corner
+//   fillet:overlap        along an edge the run of its first corner ends after the run of its second corner starts, or a
+//                         run leaves the edge (result-only test: uses the edge lines, no expected radius)
+//   fillet:radius         a vertex of a corner's run is not on the circle of radius r_eff about C
+//   fillet:tangent-point  the run does not start at T0 / end at T1 / progress monotonically between the tangent directions
+//   fillet:corner         a corner with radius 0 / a straight corner / a corner whose edges leave no room is not kept
+//   fillet:sagitta        a chord of a run of >= 2 vertices strays more than 7 tol from the arc
+//   fillet:deviation      (recorded finding) a corner kept as a single vertex lies more than 7 tol from its arc
+//   fillet:outside        convex input: a result vertex lies outside the original polygon
+//   fillet:self-intersection  convex input (or fillet triangles clear of the rest of the polygon): the result crosses itself
+//   fillet:area           |area| differs from |original| -/+ sum over convex/reflex corners of the cut-off
+//                         r_eff^2 tan(theta/2) - (m-1) r_eff^2/2 sin(theta/(m-1))   (m = vertices of the run; -> r^2 (tan(theta/2) - theta/2))
+//   fillet:repeated-vertex-crash  the call crashes (polygons whose LAST vertex is repeated: the duplicate-skipping loop
+//                         `while (old_pts[k] == old_pts[j]) k += 1` runs off the end of the array)
+struct FilletCase {
+    double tol = 0.01;
+    std::vector<Vec2> in;
+    std::vector<double> radii;
+};
+static std::string fmt_fillet(const FilletCase& f) {
+    std::string s = "P " + hex_dbl(f.tol) + " " + hex_dbl((double)f.in.size());
+    for (auto& p : f.in) s += " " + hex_dbl(p.x) + " " + hex_dbl(p.y);
+    s += " " + hex_dbl((double)f.radii.size());
+    for (double r : f.radii) s += " " + hex_dbl(r);
+    return s;
+}
+static bool parse_fillet(const std::vector<std::string>& w, FilletCase& f) {  // w[0] == "P"
+    if (w.size() < 4) return false;
+    f.tol = parse_dbl(w[1]);
+    size_t n = (size_t)parse_dbl(w[2]);
+    if (n > 4096 || w.size() < 3 + 2 * n + 1) return false;
+    for (size_t i = 0; i < n; i++) f.in.push_back(Vec2{parse_dbl(w[3 + 2 * i]), parse_dbl(w[4 + 2 * i])});
+    size_t m = (size_t)parse_dbl(w[3 + 2 * n]);
+    if (m > 4096 || w.size() < 4 + 2 * n + m) return false;
+    for (size_t i = 0; i < m; i++) f.radii.push_back(parse_dbl(w[4 + 2 * n + i]));
+    return true;
+}
+struct FCorner {
+    ld th = 0, tant = 0, cost = 1, R = 0, r = 0, L = 0, l0 = 0, l1 = 0;
+    ld u0x = 0, u0y = 0, u1x = 0, u1y = 0, cx = 0, cy = 0, t0x = 0, t0y = 0, t1x = 0, t1y = 0, eps = 0;
+    int sgn = 1, clamp = 0;  // clamp: 0 none, 1 incoming edge shorter, 2 outgoing shorter, 3 equal
+    bool straight = false, ill = false;
+};
+static const double FILLET_K = 7.0;
+static unsigned long g_fillet_arc_every = 1;
+static void fillet_expect(const FilletCase& f, std::vector<FCorner>& C, ld& S) {
+    const size_t n = f.in.size();
+    C.assign(n, FCorner());
+    S = 0;
+    for (auto& p : f.in) S = std::max(S, std::max(fabsl((ld)p.x), fabsl((ld)p.y)));
+    for (size_t i = 0; i < n; i++) {
+        const Vec2 &p0 = f.in[(i + n - 1) % n], &p1 = f.in[i], &p2 = f.in[(i + 1) % n];
+        FCorner& c = C[i];
+        ld d0x = (ld)p1.x - p0.x, d0y = (ld)p1.y - p0.y, d1x = (ld)p2.x - p1.x, d1y = (ld)p2.y - p1.y;
+        c.l0 = hypotl(d0x, d0y);
+        c.l1 = hypotl(d1x, d1y);
+        S = std::max(S, std::max(c.l0, c.l1));
+        c.u0x = d0x / c.l0; c.u0y = d0y / c.l0; c.u1x = d1x / c.l1; c.u1y = d1y / c.l1;
+        ld cr = c.u0x * c.u1y - c.u0y * c.u1x, dt = c.u0x * c.u1x + c.u0y * c.u1y;
+        c.th = atan2l(fabsl(cr), dt);
+        c.sgn = cr >= 0 ? 1 : -1;
+        c.straight = c.th < 1e-7L;
+        c.ill = !c.straight && (c.th < 0.02L || c.th > M_PIl - 0.02L);
+        c.R = f.radii[i % f.radii.size()];
+        c.t0x = c.t1x = c.cx = p1.x;
+        c.t0y = c.t1y = c.cy = p1.y;
+        if (c.straight) continue;
+        c.tant = tanl(c.th / 2);
+        c.cost = cosl(c.th / 2);
+        c.L = c.R * c.tant;
+        c.r = c.R;
+        ld lim = 0.5L * (std::min(c.l0, c.l1) - (ld)f.tol);
+        if (c.L > lim) {
+            c.L = lim;
+            c.r = lim / c.tant;
+            c.clamp = c.l0 < c.l1 ? 1 : (c.l1 < c.l0 ? 2 : 3);
+        }
+        if (!(c.r > 0)) { c.r = 0; c.L = 0; }
+        ld bx = c.u1x - c.u0x, by = c.u1y - c.u0y, bl = hypotl(bx, by);
+        c.cx = p1.x + bx / bl * c.r / c.cost;
+        c.cy = p1.y + by / bl * c.r / c.cost;
+        c.t0x = p1.x - c.u0x * c.L; c.t0y = p1.y - c.u0y * c.L;
+        c.t1x = p1.x + c.u1x * c.L; c.t1y = p1.y + c.u1y * c.L;
+    }
+    // rounding guard: 1e-9 of the coordinate scale and of the distance corner - centre (the requested radius stays out of
+    // it: a vertex next to a tangent point is about 4 tol off the edge, which must remain far above the guard)
+    for (auto& c : C) c.eps = 1e-9L * (S + c.r / c.cost);
+}
+static ld orient_ld(const Vec2& a, const Vec2& b, const Vec2& c) {
+    return ((ld)b.x - a.x) * ((ld)c.y - a.y) - ((ld)b.y - a.y) * ((ld)c.x - a.x);
+}
+static bool proper_cross(const Vec2& a, const Vec2& b, const Vec2& c, const Vec2& d, ld g) {
+    ld o1 = orient_ld(a, b, c), o2 = orient_ld(a, b, d), o3 = orient_ld(c, d, a), o4 = orient_ld(c, d, b);
+    return ((o1 > g && o2 < -g) || (o1 < -g && o2 > g)) && ((o3 > g && o4 < -g) || (o3 < -g && o4 > g));
+}
+static ld shoelace(const std::vector<Vec2>& p) {
+    ld a = 0;
+    for (size_t i = 1; i + 1 < p.size(); i++) a += orient_ld(p[0], p[i], p[i + 1]);
+    return a / 2;
+}
+static std::string fnum(ld x) {
+    char b[48];
+    snprintf(b, sizeof b, "%.9Lg", x);
+    return b;
+}
+
+// head: the text a replay re-parses (new format "P ..." or the old single-corner format)
+static void run_fillet_poly(Out& out, const FilletCase& f, const std::string& head) {
+    const size_t n = f.in.size();
+    if (n < 3 || f.radii.empty() || !(f.tol > 0)) return;
+    bool dup = false, fin = std::isfinite(f.tol);
+    for (size_t i = 0; i < n; i++) {
+        dup = dup || eqv(f.in[i], f.in[(i + 1) % n]);
+        fin = fin && finite2(f.in[i]);
+    }
+    for (double r : f.radii) fin = fin && std::isfinite(r);
+    if (!fin) return;
+    if (dup) {
+        // repeated vertices: the library skips them; only "the call returns" is checked (in a child)
+        std::string r = in_child([&](FILE* o) {
+            Polygon p = {};
+            for (auto& q : f.in) p.point_array.append(q);
+            Array<double> radii = {};
+            for (double x : f.radii) radii.append(x);
+            p.fillet(radii, f.tol);
+            fprintf(o, "returned %llu", (unsigned long long)p.point_array.count);
+        }, 10);
+        bool crashed = r.compare(0, 5, "CRASH") == 0 || r == "HANG";
+        std::string id = out.add("fillet", head + " # repeated | skip repeated-vertices");
+        out.I(id, crashed ? "arc crash" : "arc " + r.substr(r.find(' ') == std::string::npos ? 0 : r.find(' ') + 1));
+        out.P(id, crashed ? "FAIL fillet:repeated-vertex-crash Polygon::fillet on a polygon with a repeated vertex: " + r : "ok");
+        out.count(crashed ? "fillet:repeated-crash" : "fillet:repeated-returned");
+        return;
+    }
+    std::vector<FCorner> C;
+    ld S;
+    fillet_expect(f, C, S);
+
+    Polygon p = {};
+    for (auto& q : f.in) p.point_array.append(q);
+    Array<double> radii = {};
+    for (double x : f.radii) radii.append(x);
+    p.fillet(radii, f.tol);
+    radii.clear();
+    std::vector<Vec2> v;
+    for (uint64_t i = 0; i < p.point_array.count; i++) v.push_back(p.point_array[i]);
+    p.clear();
+    const size_t N = v.size();
+    const ld tol = f.tol;
+
+    // ---- classes of the input (stats)
+    ld area0 = shoelace(f.in);
+    const int spoly = area0 >= 0 ? 1 : -1;
+    bool convex = true, anyill = false;
+    ld turning = 0;
+    for (auto& c : C) {
+        if (!c.straight && c.sgn != spoly) convex = false;
+        anyill = anyill || c.ill;
+        turning += c.sgn * c.th;
+    }
+    if (fabsl(fabsl(turning) - 2 * M_PIl) > 1e-6L) convex = false;
+    out.count(convex ? "fillet-in:convex" : "fillet-in:nonconvex");
+    out.count(spoly > 0 ? "fillet-in:ccw" : "fillet-in:cw");
+    out.count(f.radii.size() == 1 ? "fillet-radii:uniform" : (f.radii.size() == n ? "fillet-radii:per-vertex" : "fillet-radii:cycled"));
+    {
+        char b[40];
+        snprintf(b, sizeof b, "fillet-tol/size:1e%d", (int)floor(log10((double)(tol / S)) + 0.5));
+        out.count(b);
+    }
+    for (auto& c : C) {
+        if (c.straight) { out.count("fillet-corner:straight"); continue; }
+        if (c.R == 0) { out.count("fillet-corner:radius-0"); continue; }
+        out.count(c.sgn == spoly ? "fillet-corner:convex" : "fillet-corner:reflex");
+        const char* cl[] = {"fillet-clamp:none", "fillet-clamp:incoming-shorter", "fillet-clamp:outgoing-shorter", "fillet-clamp:edges-equal"};
+        out.count(c.r > 0 ? cl[c.clamp] : "fillet-clamp:no-room");
+        ld hs = 0.5L * std::min(c.l0, c.l1), hl = 0.5L * std::max(c.l0, c.l1);
+        out.count(c.R > hl ? "fillet-R:above-half-longer" : (c.R > hs ? "fillet-R:above-half-shorter" : (c.R == hs ? "fillet-R:at-half-shorter" : "fillet-R:below-half-shorter")));
+        // the documented limit (radius <= half the shortest adjacent edge) against the code's (tangent length)
+        ld doc = std::min(c.R, hs);
+        if (c.r > 0 && fabsl(doc - c.r) > 0.01L * c.r + tol) out.count("fillet:doc-rule-differs");
+    }
+    if (anyill) out.count("fillet-in:ill-conditioned-corner");
+
+    // ---- lenient split of the result into one run per corner: a run starts on the line of the incoming edge and ends
+    // on the line of the outgoing edge (a kept corner is on both); no expected radius is used here
+    struct Run { size_t b, e; };
+    std::vector<Run> runs(n);
+    std::string segfail;
+    {
+        size_t t = 0;
+        for (size_t i = 0; i < n && segfail.empty(); i++) {
+            const FCorner& c = C[i];
+            const Vec2& p1 = f.in[i];
+            auto din = [&](const Vec2& q) { return fabsl(((ld)q.x - p1.x) * c.u0y - ((ld)q.y - p1.y) * c.u0x); };
+            auto dout = [&](const Vec2& q) { return fabsl(((ld)q.x - p1.x) * c.u1y - ((ld)q.y - p1.y) * c.u1x); };
+            if (t >= N) { segfail = "FAIL fillet:count no vertex left for corner " + std::to_string(i); break; }
+            if (din(v[t]) > c.eps) {
+                segfail = "FAIL fillet:tangent-point first vertex of corner " + std::to_string(i) + " is " + fnum(din(v[t])) + " off the line of the incoming edge";
+                break;
+            }
+            size_t k = t;
+            while (k < N && dout(v[k]) > c.eps) k++;
+            if (k == N) { segfail = "FAIL fillet:tangent-point the run of corner " + std::to_string(i) + " never reaches the outgoing edge"; break; }
+            runs[i] = Run{t, k};
+            t = k + 1;
+        }
+        if (segfail.empty() && t != N) segfail = "FAIL fillet:count " + std::to_string(N - t) + " vertices left after the last corner";
+    }
+    bool allfinite = true;
+    for (auto& q : v) allfinite = allfinite && finite2(q);
+    if (!allfinite) segfail = "FAIL fillet:nonfinite a result vertex is not finite";
+
+    // ---- per corner
+    std::string f_overlap, f_radius, f_tangent, f_corner, f_sagitta, f_dev;
+    auto set = [](std::string& s, const std::string& t) { if (s.empty()) s = t; };
+    if (segfail.empty()) {
+        for (size_t i = 0; i < n; i++) {  // edge i: from in[i] to in[i+1]
+            const FCorner& c = C[i];
+            const Vec2 &a = v[runs[i].e], &b = v[runs[(i + 1) % n].b], &o = f.in[i];
+            ld pa = ((ld)a.x - o.x) * c.u1x + ((ld)a.y - o.y) * c.u1y, pb = ((ld)b.x - o.x) * c.u1x + ((ld)b.y - o.y) * c.u1y;
+            ld g = std::max(c.eps, C[(i + 1) % n].eps);
+            if (pa < -g || pb > c.l1 + g || pa > pb + g)
+                set(f_overlap, "FAIL fillet:overlap edge " + std::to_string(i) + " of length " + fnum(c.l1) + ": the fillet of its first corner ends at " +
+                                   fnum(pa) + ", the fillet of its second corner starts at " + fnum(pb));
+        }
+        for (size_t i = 0; i < n; i++) {
+            const FCorner& c = C[i];
+            const size_t b = runs[i].b, m = runs[i].e - runs[i].b + 1;
+            const std::string ci = "corner " + std::to_string(i);
+            if (c.ill) { out.count("fillet-run:skipped-ill-conditioned"); continue; }
+            if (c.r == 0) {  // radius 0, straight corner, or no room between the edges: the vertex is kept
+                if (m != 1 || !eqv(v[b], f.in[i])) {
+                    if (c.straight || c.R == 0) set(f_corner, "FAIL fillet:corner " + ci + " (radius 0 or straight) is not kept as it is");
+                    else set(f_radius, "FAIL fillet:radius " + ci + ": the adjacent edges leave no room (effective radius 0) but " + std::to_string(m) + " vertices were produced");
+                }
+                out.count("fillet-run:kept-as-required");
+                continue;
+            }
+            if (m == 1 && eqv(v[b], f.in[i])) {  // one-point arc: the corner itself
+                ld dev = c.r * (1 / c.cost - 1);
+                note_ratio("fillet-corner-kept", (double)(dev / tol));
+                if (dev > FILLET_K * tol)
+                    set(f_dev, "FAIL fillet:deviation kept " + ci + " is " + fnum(dev / tol) + " tol from the fillet arc (limit 7)");
+                out.count("fillet-run:one-point");
+                continue;
+            }
+            out.count("fillet-run:arc");
+            ld w0x = c.t0x - c.cx, w0y = c.t0y - c.cy, prev = 0;
+            for (size_t k = 0; k < m; k++) {
+                const Vec2& q = v[b + k];
+                ld wx = (ld)q.x - c.cx, wy = (ld)q.y - c.cy, d = hypotl(wx, wy);
+                if (fabsl(d - c.r) > c.eps)
+                    set(f_radius, "FAIL fillet:radius vertex " + std::to_string(k) + " of " + ci + " is at " + fnum(d) + " from the arc centre, effective radius " +
+                                      fnum(c.r) + " (requested " + fnum(c.R) + ", edges " + fnum(c.l0) + " / " + fnum(c.l1) + ")");
+                ld phi = c.sgn * atan2l(w0x * wy - w0y * wx, w0x * wx + w0y * wy), ea = c.eps / c.r + 1e-12L;
+                if (phi < -ea || phi > c.th + ea || (k > 0 && !(phi > prev)))
+                    set(f_tangent, "FAIL fillet:tangent-point vertex " + std::to_string(k) + " of " + ci + " is at arc parameter " + fnum(phi) + " (previous " + fnum(prev) +
+                                       "), outside the turn 0.." + fnum(c.th) + " or out of order");
+                if (k > 0) {
+                    ld sag = c.r * (1 - cosl((phi - prev) / 2));
+                    note_ratio("fillet-sagitta", (double)(sag / tol));
+                    if (sag > FILLET_K * tol * (1 + 1e-6L))
+                        set(f_sagitta, "FAIL fillet:sagitta chord " + std::to_string(k - 1) + " of " + ci + " has sagitta " + fnum(sag / tol) + " tol (limit 7)");
+                }
+                prev = phi;
+            }
+            const Vec2 &qa = v[b], &qb = v[b + m - 1];
+            ld da = hypotl((ld)qa.x - c.t0x, (ld)qa.y - c.t0y), db = hypotl((ld)qb.x - c.t1x, (ld)qb.y - c.t1y);
+            if (da > c.eps || db > c.eps)
+                set(f_tangent, "FAIL fillet:tangent-point the run of " + ci + " starts " + fnum(da) + " from the tangent point on the incoming edge and ends " + fnum(db) +
+                                   " from the one on the outgoing edge (tangent length " + fnum(c.L) + ")");
+        }
+    }
+    std::string fc = segfail;
+    for (const std::string* s : {&f_overlap, &f_radius, &f_tangent, &f_corner, &f_sagitta, &f_dev})
+        if (fc.empty()) fc = *s;
+    {
+        std::string data = "skip fillet-corners " + std::to_string(N);
+        for (auto& q : v) data += " " + hd2(q);
+        std::string id = out.add("fillet", head + " # corners | " + data);
+        out.I(id, "arc " + std::to_string(N));
+        out.P(id, fc.empty() ? "ok" : fc);
+        if (!fc.empty()) out.count("pfail:" + fc.substr(5, fc.find(' ', 5) - 5));
+    }
+
+    // ---- global
+    std::string fg;
+    if (allfinite) {
+        if (convex) {
+            for (size_t k = 0; k < N && fg.empty(); k++)
+                for (size_t e = 0; e < n && fg.empty(); e++) {
+                    ld o = spoly * orient_ld(f.in[e], f.in[(e + 1) % n], v[k]);
+                    if (o < -1e-9L * C[e].l1 * S)
+                        fg = "FAIL fillet:outside result vertex " + std::to_string(k) + " lies " + fnum(-o / C[e].l1) + " outside edge " + std::to_string(e) + " of the convex input";
+                }
+            out.count("fillet-global:inside-checked");
+        }
+        // simple result expected when every fillet triangle (T0, P, T1) is clear of the rest of the polygon
+        bool clear = true;
+        if (!convex)
+            for (size_t i = 0; i < n && clear; i++) {
+                const FCorner& c = C[i];
+                if (c.r == 0) continue;
+                Vec2 A = Vec2{(double)c.t0x, (double)c.t0y}, B = f.in[i], D = Vec2{(double)c.t1x, (double)c.t1y};
+                ld g = 1e-9L * S * S, so = orient_ld(A, B, D);
+                for (size_t k = 0; k < n && clear; k++) {
+                    if (k != i) {
+                        ld o1 = orient_ld(A, B, f.in[k]), o2 = orient_ld(B, D, f.in[k]), o3 = orient_ld(D, A, f.in[k]);
+                        if (so < 0) { o1 = -o1; o2 = -o2; o3 = -o3; }
+                        if (o1 > -g && o2 > -g && o3 > -g) clear = false;
+                    }
+                    size_t k2 = (k + 1) % n;
+                    if (k == i || k2 == i) continue;
+                    ld o1 = orient_ld(A, D, f.in[k]), o2 = orient_ld(A, D, f.in[k2]), o3 = orient_ld(f.in[k], f.in[k2], A), o4 = orient_ld(f.in[k], f.in[k2], D);
+                    if (!((o1 > g && o2 > g) || (o1 < -g && o2 < -g) || (o3 > g && o4 > g) || (o3 < -g && o4 < -g))) clear = false;
+                }
+            }
+        if (clear && fg.empty()) {
+            ld g = 1e-9L * S * S;
+            for (size_t a = 0; a < N && fg.empty(); a++)
+                for (size_t b = a + 2; b < N && fg.empty(); b++) {
+                    if (a == 0 && b == N - 1) continue;
+                    if (proper_cross(v[a], v[(a + 1) % N], v[b], v[(b + 1) % N], g))
+                        fg = "FAIL fillet:self-intersection result edges " + std::to_string(a) + " and " + std::to_string(b) + " cross";
+                }
+            out.count("fillet-global:simple-checked");
+        }
+        if (fg.empty() && segfail.empty() && !anyill) {
+            ld expect = fabsl(area0), slack = 1e-9L * S * S * (ld)n;
+            for (size_t i = 0; i < n; i++) {
+                const FCorner& c = C[i];
+                size_t m = runs[i].e - runs[i].b + 1;
+                if (c.r == 0 || m < 2) continue;
+                ld cut = c.r * c.r * c.tant - (ld)(m - 1) * c.r * c.r / 2 * sinl(c.th / (ld)(m - 1));
+                expect += (c.sgn == spoly ? -1 : 1) * cut;
+                slack += 1e-9L * c.r * c.r * (1 + c.tant);
+            }
+            ld got = fabsl(shoelace(v));
+            if (fabsl(got - expect) > slack)
+                fg = "FAIL fillet:area result area " + fnum(got) + ", original " + fnum(fabsl(area0)) + " less the corner cut-offs gives " + fnum(expect);
+            out.count("fillet-global:area-checked");
+        }
+    }
+    {
+        std::string id = out.add("fillet", head + " # global | skip fillet-global " + std::to_string(N));
+        out.I(id, "arc " + std::to_string(N));
+        out.P(id, fg.empty() ? "ok" : fg);
+        if (!fg.empty()) out.count("pfail:" + fg.substr(5, fg.find(' ', 5) - 5));
+    }
+
+    // ---- exact check by the driver (vertices on the expected circle, uniform steps, deviation): the run with the most
+    // vertices and the first run of a clamped corner
+    if (segfail.empty()) {
+        size_t best = n, firstclamp = n;
+        for (size_t i = 0; i < n; i++) {
+            size_t m = runs[i].e - runs[i].b + 1;
+            if (C[i].ill || C[i].r == 0 || m < 2) continue;
+            if (best == n || m > runs[best].e - runs[best].b + 1) best = i;
+            if (firstclamp == n && C[i].clamp != 0) firstclamp = i;
+        }
+        std::vector<size_t> pick;
+        static unsigned long turn = 0;  // one run per polygon (quick), per fourth polygon (thorough): the driver's exact test is slow
+        if (turn++ % g_fillet_arc_every == 0) {
+            if (firstclamp != n && (turn & 2)) pick.push_back(firstclamp);
+            else if (best != n) pick.push_back(best);
+        }
+        for (size_t i : pick) {
+            const FCorner& c = C[i];
+            std::vector<Vec2> cv(v.begin() + runs[i].b, v.begin() + runs[i].e + 1);
+            ArcInfo A = {};
+            A.rx = A.ry = (double)c.r; A.cr = 1; A.sr = 0; A.cx = (double)c.cx; A.cy = (double)c.cy;
+            ld a0 = atan2l(c.t0y - c.cy, c.t0x - c.cx);
+            A.a0 = (double)a0; A.a1 = (double)(a0 + c.sgn * c.th); A.nseg = cv.size() - 1;
+            emit_arcloop(out, "fillet", head + " # corner " + std::to_string(i), f.tol, A, cv, "", FILLET_K, "fillet:sagitta");
+        }
+    }
 }
 
 static void run_shape(Out& out, const std::string& kind, const std::string& payload) {
@@ -1020,75 +1413,31 @@ static void run_shape(Out& out, const std::string& kind, const std::string& payl
         }
         out.count(ir > 0 ? "racetrack:ring" : "racetrack:solid");
         p.clear();
+    } else if (kind == "fillet" && !w.empty() && w[0] == "P") {
+        // P tol n x y ... m r ...   (whole polygon, radii cycled over the vertices); anything after '#' names a sub-case
+        std::vector<std::string> ww;
+        for (auto& x : w) {
+            if (x == "#") break;
+            ww.push_back(x);
+        }
+        FilletCase f;
+        if (!parse_fillet(ww, f)) { out.count("bad-desc"); return; }
+        run_fillet_poly(out, f, fmt_fillet(f));
     } else if (kind == "fillet" && a.size() >= 5) {
-        // tol radius corner n x y x y ...   (simple polygon; only corner `corner` gets a radius, the
-        // others radius 0 and keep their single vertex, so the arc's vertices are identified by position)
-        double tol = a[0], radius = a[1];
+        // tol radius corner n x y x y ...   (simple polygon; only corner `corner` gets a radius, the others radius 0
+        // and keep their single vertex): the same oracle with a per-vertex radius array
         size_t j = (size_t)a[2], n = (size_t)a[3];
         if (a.size() < 4 + 2 * n || j >= n) return;
-        Polygon p = {};
-        std::vector<Vec2> in;
+        FilletCase f;
+        f.tol = a[0];
         for (size_t i = 0; i < n; i++) {
-            in.push_back(Vec2{a[4 + 2 * i], a[5 + 2 * i]});
-            p.point_array.append(in.back());
+            f.in.push_back(Vec2{a[4 + 2 * i], a[5 + 2 * i]});
+            f.radii.push_back(i == j ? a[1] : 0.0);
         }
-        Array<double> radii = {};
-        for (size_t i = 0; i < n; i++) radii.append(i == j ? radius : 0.0);
-        p.fillet(radii, tol);
-        radii.clear();
-        std::vector<Vec2> v;
-        for (uint64_t i = 0; i < p.point_array.count; i++) v.push_back(p.point_array[i]);
-        std::string fail;
-        if (v.size() < n) fail = "FAIL fillet:count fewer vertices than corners";
-        for (size_t i = 0; i < j && fail.empty(); i++)
-            if (!eqv(v[i], in[i])) fail = "FAIL fillet:corner a corner with radius 0 moved";
-        for (size_t i = j + 1; i < n && fail.empty(); i++)
-            if (!eqv(v[v.size() - (n - i)], in[i])) fail = "FAIL fillet:corner a corner with radius 0 moved";
-        size_t take = fail.empty() ? v.size() - (n - 1) : 0;
-        Vec2 p0 = in[(j + n - 1) % n], p1 = in[j], p2 = in[(j + 1) % n];
-        Vec2 v0 = p1 - p0, v1 = p2 - p1;
-        ld l0 = sqrtl((ld)v0.x * v0.x + (ld)v0.y * v0.y), l1 = sqrtl((ld)v1.x * v1.x + (ld)v1.y * v1.y);
-        ld ux0 = v0.x / l0, uy0 = v0.y / l0, ux1 = v1.x / l1, uy1 = v1.y / l1;
-        ld dotv = ux0 * ux1 + uy0 * uy1;
-        if (dotv > 1) dotv = 1;
-        if (dotv < -1) dotv = -1;
-        ld theta = acosl(dotv);
-        ld tant = tanl(theta / 2), cost = cosl(theta / 2);
-        // documented geometry: circle of the requested radius tangent to both edges, the radius reduced
-        // so that each tangent length stays below half the edge (minus the tolerance)
-        ld maxlen = radius * tant, rad = radius;
-        if (maxlen > 0.5L * (l0 - tol)) { maxlen = 0.5L * (l0 - tol); rad = maxlen / tant; }
-        if (maxlen > 0.5L * (l1 - tol)) { maxlen = 0.5L * (l1 - tol); rad = maxlen / tant; }
-        ld bx = ux1 - ux0, by = uy1 - uy0, bl = sqrtl(bx * bx + by * by);
-        ld ccx = p1.x + bx / bl * rad / cost, ccy = p1.y + by / bl * rad / cost;
-        ld a0 = atan2l(p1.y - uy0 * maxlen - ccy, p1.x - ux0 * maxlen - ccx);
-        ld a1 = atan2l(p1.y + uy1 * maxlen - ccy, p1.x + ux1 * maxlen - ccx);
-        if (a1 - a0 > M_PIl) a1 -= 2 * M_PIl; else if (a1 - a0 < -M_PIl) a1 += 2 * M_PIl;
-        std::string hd = head;
-        if (!fail.empty() || take == 0) {
-            std::string id = out.add("fillet", hd + " | skip");
-            out.I(id, "arc 0");
-            out.P(id, fail.empty() ? "FAIL fillet:count no vertex for the corner" : fail);
-        } else if (take == 1) {
-            // the corner itself is kept: its distance to the fillet arc is rad (1/cos(theta/2) - 1)
-            ld dev = rad > 0 ? rad * (1 / cost - 1) : 0;
-            note_ratio("fillet-corner-kept", (double)(dev / tol));
-            std::string f;
-            if (!eqv(v[j], p1)) f = "FAIL fillet:corner single vertex is not the corner";
-            else if (dev > 7.0L * tol) f = "FAIL fillet:deviation kept corner is farther than 7 tol from the fillet arc";
-            std::string id = out.add("fillet", hd + " | skip corner-kept");
-            out.I(id, "arc 1");
-            out.P(id, f.empty() ? "ok" : f);
-            out.count("fillet:corner-kept");
-        } else {
-            std::vector<Vec2> cv(v.begin() + j, v.begin() + j + take);
-            ArcInfo A = {};
-            A.rx = A.ry = (double)rad; A.cr = 1; A.sr = 0; A.cx = (double)ccx; A.cy = (double)ccy;
-            A.a0 = (double)a0; A.a1 = (double)a1; A.nseg = take - 1;
-            emit_arcloop(out, "fillet", hd, tol, A, cv, "", 7.0);
-            out.count("fillet:arc");
-        }
-        p.clear();
+        std::string hd;
+        for (size_t i = 0; i < 4 + 2 * n; i++) hd += (i ? " " : "") + w[i];
+        run_fillet_poly(out, f, hd);
+        out.count("fillet:single-corner-form");
     }
 }
 
@@ -1418,6 +1767,198 @@ static void gen_shape(Rng& g, Out& out, bool thorough) {
     }
 }
 
+// ---------------------------------------------------------------- fillet: whole polygons
+// Shapes: axis rectangles (square, 5:1 like the 10 x 2 regression input, long thin, random), rotated rectangles, regular
+// polygons, convex polygons inscribed in an ellipse, L / plus / U shapes (reflex corners, two adjacent reflex corners),
+// stars and star-shaped polygons; both orientations, any start vertex.  Radii relative to what fits at a corner
+// (below / exactly the fitting radius / half the shorter edge / between / half the longer edge / above / huge / of the order
+// of the tolerance), as one value, one value per vertex (with zeros, first and last different) or a shorter cycled array.
+// Tolerance 1e-2 or 1e-3 of the feature size (feature size 1 in half of the cases).
+static void gen_fillet_poly(Rng& g, Out& out) {
+    Gen G(g);
+    if (g.coin()) { G.s = 1; G.unit = 1.0 / 1024; }
+    FilletCase f;
+    f.tol = (g.coin() ? 1e-2 : 1e-3) * G.s;
+    std::vector<Vec2> q;  // grid units
+    auto P = [&](double x, double y) { q.push_back(Vec2{x, y}); };
+    const char* shape = "";
+    switch (g.below(12)) {
+        case 0:
+        case 1:
+        case 2: {
+            double W, H;
+            switch (g.below(5)) {
+                case 0: W = H = (double)g.range(64, 1024); shape = "square"; break;
+                case 1: { double k = (double)g.range(8, 100); W = 10 * k; H = 2 * k; shape = "rect-5:1"; } break;
+                case 2: W = (double)g.range(512, 2048); H = (double)g.range(4, 16); shape = "rect-thin"; break;
+                case 3: { double k = (double)g.range(8, 100); W = 2 * k; H = 10 * k; shape = "rect-1:5"; } break;
+                default: W = (double)g.range(8, 1024); H = (double)g.range(8, 1024); shape = "rect-random";
+            }
+            P(0, 0); P(W, 0); P(W, H); P(0, H);
+        } break;
+        case 3: {
+            shape = "rect-rotated";
+            double W = (double)g.range(64, 1024), H = (double)g.range(16, 1024), t = (double)g.below(36000) / 36000 * 2 * M_PI;
+            double c = cos(t), s = sin(t);
+            P(0, 0); P(round(W * c), round(W * s)); P(round(W * c - H * s), round(W * s + H * c)); P(round(-H * s), round(H * c));
+        } break;
+        case 4:
+        case 5: {
+            shape = "regular";
+            size_t k = 3 + g.below(10);
+            double R = (double)g.range(200, 1000), t0 = (double)g.below(36000) / 36000 * 2 * M_PI;
+            if (g.chance(30)) t0 = 0;
+            for (size_t i = 0; i < k; i++) P(round(R * cos(t0 + 2 * M_PI * i / k)), round(R * sin(t0 + 2 * M_PI * i / k)));
+        } break;
+        case 6: {
+            shape = "convex";
+            size_t k = 3 + g.below(7);
+            double a = (double)g.range(300, 1000), b = a * (double)g.range(35, 100) / 100;
+            std::vector<double> angs;
+            for (size_t i = 0; i < k; i++) angs.push_back((double)g.below(36000) / 36000.0 * 2 * M_PI);
+            std::sort(angs.begin(), angs.end());
+            for (size_t i = 0; i < k; i++) {
+                if (i > 0 && angs[i] - angs[i - 1] < 0.2) continue;
+                if (i + 1 == k && q.size() > 0 && angs[0] + 2 * M_PI - angs[i] < 0.2) continue;
+                P(round(a * cos(angs[i])), round(b * sin(angs[i])));
+            }
+            if (q.size() < 3) { q.clear(); P(0, 0); P(a, 0); P(0, b); }
+        } break;
+        case 7: {
+            shape = "L";
+            double W = (double)g.range(128, 1024), H = (double)g.range(128, 1024), w1 = (double)g.range(16, (int64_t)W - 16), h1 = (double)g.range(16, (int64_t)H - 16);
+            P(0, 0); P(W, 0); P(W, h1); P(w1, h1); P(w1, H); P(0, H);
+        } break;
+        case 8: {
+            shape = "plus";
+            double c = (double)g.range(16, 300), a = (double)g.range(8, 400), b = g.coin() ? a : (double)g.range(8, 400);
+            P(a, 0); P(a + c, 0); P(a + c, b); P(2 * a + c, b); P(2 * a + c, b + c); P(a + c, b + c);
+            P(a + c, 2 * b + c); P(a, 2 * b + c); P(a, b + c); P(0, b + c); P(0, b); P(a, b);
+        } break;
+        case 9: {
+            shape = "U";
+            double W = (double)g.range(200, 1024), H = (double)g.range(100, 1024), a = (double)g.range(8, (int64_t)(W / 2) - 8), b = (double)g.range(8, (int64_t)H - 8);
+            P(0, 0); P(W, 0); P(W, H); P(W - a, H); P(W - a, b); P(a, b); P(a, H); P(0, H);
+        } break;
+        case 10: {
+            shape = "star";
+            size_t k = 4 + g.below(5);
+            double Ro = (double)g.range(600, 1000), Ri = Ro * (double)g.range(45, 85) / 100, t0 = (double)g.below(36000) / 36000 * 2 * M_PI;
+            for (size_t i = 0; i < 2 * k; i++) {
+                double R = (i & 1) ? Ri : Ro;
+                P(round(R * cos(t0 + M_PI * i / k)), round(R * sin(t0 + M_PI * i / k)));
+            }
+        } break;
+        default: {
+            shape = "star-shaped";
+            size_t k = 5 + g.below(6);
+            std::vector<double> angs;
+            for (size_t i = 0; i < k; i++) angs.push_back((double)g.below(36000) / 36000.0 * 2 * M_PI);
+            std::sort(angs.begin(), angs.end());
+            for (size_t i = 0; i < k; i++) {
+                if (i > 0 && angs[i] - angs[i - 1] < 0.35) continue;
+                if (i + 1 == k && q.size() > 0 && angs[0] + 2 * M_PI - angs[i] < 0.35) continue;
+                double R = (double)g.range(300, 1000);
+                P(round(R * cos(angs[i])), round(R * sin(angs[i])));
+            }
+            // gaps above a half turn would put the centre outside: fall back to a kite
+            bool wide = q.size() < 4;
+            for (size_t i = 0; i + 1 < q.size() && !wide; i++)
+                if (orient_ld(Vec2{0, 0}, q[i], q[i + 1]) <= 0) wide = true;
+            if (!wide && orient_ld(Vec2{0, 0}, q.back(), q[0]) <= 0) wide = true;
+            if (wide) { q.clear(); P(0, -600); P(300, 0); P(0, 200); P(-300, 0); }
+        }
+    }
+    out.count(std::string("fillet-shape:") + shape);
+    if (g.coin()) std::reverse(q.begin(), q.end());
+    std::rotate(q.begin(), q.begin() + g.below(q.size()), q.end());
+    Vec2 off = {(double)g.range(-1024, 1024), (double)g.range(-1024, 1024)};
+    if (g.chance(30)) off = Vec2{0, 0};
+    for (auto& p : q) f.in.push_back(Vec2{(p.x + off.x) * G.unit, (p.y + off.y) * G.unit});
+    const size_t n = f.in.size();
+    // the radius classes, relative to corner i
+    auto radius_for = [&](size_t i) -> double {
+        const Vec2 &p0 = f.in[(i + n - 1) % n], &p1 = f.in[i], &p2 = f.in[(i + 1) % n];
+        Vec2 a = p1 - p0, b = p2 - p1;
+        double l0 = a.length(), l1 = b.length(), lo = std::min(l0, l1), hi = std::max(l0, l1);
+        double th = atan2(fabs(a.cross(b)), a.inner(b)), tt = tan(th / 2);
+        double fit = tt > 1e-6 ? (lo - f.tol) / (2 * tt) : lo;
+        if (fit < 0) fit = lo / 2;
+        switch (g.below(9)) {
+            case 0: return fit * (double)g.range(10, 90) / 100;
+            case 1: return fit;
+            case 2: return lo / 2;
+            case 3: return hi > lo ? (lo + hi) / 4 : 0.75 * lo;
+            case 4: return hi / 2;
+            case 5: return hi * (double)g.range(60, 200) / 100;
+            case 6: return hi * (double)g.range(10, 100);
+            case 7: return f.tol * ldexp(1.0, (int)g.range(-2, 2));
+            default: return fit * (double)g.range(101, 150) / 100;
+        }
+    };
+    switch (g.below(10)) {
+        case 0:
+        case 1:
+        case 2:
+        case 3: f.radii.push_back(radius_for(g.below(n))); break;
+        case 4:
+        case 5:
+        case 6:
+            for (size_t i = 0; i < n; i++) f.radii.push_back(g.chance(25) ? 0.0 : radius_for(i));
+            break;
+        case 7:
+        case 8: {  // first and last entries different
+            for (size_t i = 0; i < n; i++) f.radii.push_back(radius_for(i));
+            if (f.radii[0] == f.radii[n - 1]) f.radii[n - 1] = f.radii[0] * (g.coin() ? 0.5 : 0.25);
+        } break;
+        default: {
+            size_t m = 2 + g.below(n > 3 ? std::min<size_t>(n - 2, 3) : 1);
+            for (size_t i = 0; i < m; i++) f.radii.push_back(g.chance(25) ? 0.0 : radius_for(g.below(n)));
+        }
+    }
+    run_case(out, "fillet", fmt_fillet(f));
+}
+
+// fixed fillet inputs of every campaign: the 10 x 2 rectangle with radius 3 (too large for every corner; at two corners the
+// incoming edge is the short one, at the other two the outgoing one), both orientations and tolerances; a per-vertex array
+// with zeros; and the polygons with a repeated last vertex (finding fillet:repeated-vertex-crash)
+static void fillet_known(Out& out) {
+    for (int o = 0; o < 2; o++)
+        for (int t = 0; t < 2; t++) {
+            FilletCase f;
+            f.tol = t ? 1e-3 : 1e-2;
+            f.in = {Vec2{0, 0}, Vec2{10, 0}, Vec2{10, 2}, Vec2{0, 2}};
+            if (o) std::reverse(f.in.begin(), f.in.end());
+            f.radii = {3.0};
+            run_case(out, "fillet", fmt_fillet(f));
+        }
+    {
+        FilletCase f;
+        f.tol = 1e-3;
+        f.in = {Vec2{0, 0}, Vec2{10, 0}, Vec2{10, 2}, Vec2{0, 2}};
+        f.radii = {0.5, 0.0, 3.0, 1.0};
+        run_case(out, "fillet", fmt_fillet(f));
+    }
+    {  // regular hexagon of side 1, radius 2: the inscribed circle (radius 0.866 > half the edge: the documented rule differs)
+        FilletCase f;
+        f.tol = 1e-3;
+        for (int i = 0; i < 6; i++) f.in.push_back(Vec2{cos(M_PI * i / 3), sin(M_PI * i / 3)});
+        f.radii = {2.0};
+        run_case(out, "fillet", fmt_fillet(f));
+    }
+    {
+        FilletCase f;
+        f.tol = 1e-2;
+        f.in = {Vec2{0, 0}, Vec2{4, 0}, Vec2{4, 4}, Vec2{4, 4}};
+        f.radii = {1.0};
+        run_case(out, "fillet", fmt_fillet(f));
+        f.in = {Vec2{0, 0}, Vec2{4, 0}, Vec2{4, 4}, Vec2{0, 0}, Vec2{0, 0}};
+        run_case(out, "fillet", fmt_fillet(f));
+        f.in = {Vec2{0, 0}, Vec2{4, 0}, Vec2{4, 0}, Vec2{4, 4}, Vec2{0, 0}};  // repeated inside + closing vertex: handled
+        run_case(out, "fillet", fmt_fillet(f));
+    }
+}
+
 // the inputs of the defects F11 / F12 / F17 (fixed by 66f871b / 4b3b094 / 7a14b8c) run first on every campaign
 // as regression cases
 static void known_inputs(Out& out) {
@@ -1511,6 +2052,7 @@ int main(int argc, char** argv) {
     uint64_t seed = strtoull(argv[1], NULL, 10);
     bool thorough = strcmp(argv[2], "thorough") == 0;
     if (thorough) g_budget = 384;
+    if (thorough) g_fillet_arc_every = 4;
     set_error_logger(NULL);
     Out out;
     out.open(argv[3]);
@@ -1530,6 +2072,9 @@ int main(int argc, char** argv) {
         run_curve(out, d);
     }
     for (long i = 0; i < NS; i++) gen_shape(g, out, thorough);
+    // whole-polygon fillets (their own stream position: after the shapes, so the earlier cases of a seed are unchanged)
+    fillet_known(out);
+    for (long i = 0, NF = thorough ? 5000 : 240; i < NF; i++) gen_fillet_poly(g, out);
     out.count("grid:inexact-conversions", g_inexact);
     for (auto& kv : g_stats.maxratio) out.count("maxdev-permille:" + kv.first, (long)llround(kv.second * 1000));
     out.close();
